@@ -420,9 +420,12 @@ func c02Each(c *sim.Case) {
 	fi := sim.Pick(c, "forge", len(all))
 	onRefresh := sim.Bool(c, "on-refresh")
 	st := sim.PickStr(c, "store", "memory", "redis")
-	keyKind := sim.Pick(c, "keykind", 3)
+	keyKind := sim.Pick(c, "keykind", 4)
 	f := all[fi]
 	ho := histOpts{o: sim.WorldOpts{Store: st, AccessToken: true, Logout: true}, idTTL: 600e9, expIn: 300}
+	if keyKind == 3 {
+		ho.o.JwksFetchSec = 60 // keys fetched from the provider's JWKS endpoint by the real key provider
+	}
 	m := &c02Mon{bound: map[string]*oidc.TokenResponse{}}
 	h := ho.build(c, m)
 	defer h.w.Close()
